@@ -30,7 +30,7 @@ def rd (b : Bytes) (i : Nat) : M UInt8 :=
 
 /-- bounds-checked one byte write -/
 def wr (b : Bytes) (i : Nat) (v : UInt8) : M Bytes :=
-  if h : i < b.size then .ok (b.set i v h) else .error .oob
+  if i < b.size then .ok (b.setIfInBounds i v) else .error .oob
 
 /-- C pointer view of a block at an offset, for the translated kernels (total: 0 outside) -/
 def ptrAt (b : Bytes) (off : Nat) : Nat → UInt8 := fun i => b.getD (off + i) 0
@@ -118,6 +118,48 @@ def nextNonEmpty (bufs : Array Bytes) (j : Nat) : Nat :=
   else j
 termination_by bufs.size - j
 
+/-- the 16-bit length field read by the pre-check: fast path from the first buffer, otherwise the
+    slow path over tiny buffers (skip two bytes, read two bytes that may sit in two buffers) -/
+def readLenField (bufs : Array Bytes) (h0 : 0 < bufs.size) : M Nat :=
+  if bufs[0].size ≥ STUN_MESSAGE_LENGTH_POS + STUN_MESSAGE_LENGTH_LEN then
+    -- fast path
+    (getw bufs[0] STUN_MESSAGE_LENGTH_POS).map (·.toNat)
+  else
+    -- slow path
+    let r := skipBytes bufs 0 STUN_MESSAGE_LENGTH_POS
+    if hi : r.1 < bufs.size then
+      if bufs[r.1].size - r.2 > 1 then
+        (getw bufs[r.1] r.2).map (·.toNat)
+      else
+        let j := nextNonEmpty bufs (r.1 + 1)
+        match rd bufs[r.1] r.2 with
+        | .error e => .error e
+        | .ok hi8 =>
+          if hj : j < bufs.size then
+            match rd bufs[j] 0 with
+            | .error e => .error e
+            | .ok lo8 => .ok ((hi8.toNat <<< 8) ||| lo8.toNat)
+          else .error .oob
+    else .error .oob
+
+/-- the pre-check from `if (buffers[0].buffer[0] >> 6)` on; `bufs[0]` is the first non-empty buffer -/
+def validateFastHead (bufs : Array Bytes) (total : Nat) (pad : Bool) : M LenRes :=
+  if h0 : 0 < bufs.size then
+    match rd bufs[0] 0 with
+    | .error e => .error e
+    | .ok b0 =>
+      if b0 >>> 6 != 0 then .ok .invalid
+      else if total < STUN_MESSAGE_LENGTH_POS + STUN_MESSAGE_LENGTH_LEN then .ok .incomplete
+      else
+        match readLenField bufs h0 with
+        | .error e => .error e
+        | .ok m =>
+          let mlen := m + STUN_MESSAGE_HEADER_LENGTH
+          if pad && paddingN mlen != 0 then .ok .invalid
+          else if total < mlen then .ok .incomplete
+          else .ok (.len mlen)
+  else .ok .invalid
+
 /-- `stun_message_validate_buffer_length_fast (buffers, n_buffers, total_length, has_padding)`.
     `bufs` is the vector (`n_buffers = bufs.size`; the `n_buffers < 0` NULL-terminated form walks
     the same entries and differs only once the vector is exhausted, which is a fault here).
@@ -128,44 +170,7 @@ def validateFast (bufs : Array Bytes) (total : Nat) (pad : Bool) : M LenRes :=
   -- skip leading zero-length buffers (buffers++ / n_buffers--)
   match skipEmpty bufs 0 with
   | none => .ok .invalid
-  | some s =>
-    let bufs := bufs.extract s bufs.size
-    if h0 : 0 < bufs.size then
-      match rd bufs[0] 0 with
-      | .error e => .error e
-      | .ok b0 =>
-        if b0 >>> 6 != 0 then .ok .invalid
-        else if total < STUN_MESSAGE_LENGTH_POS + STUN_MESSAGE_LENGTH_LEN then .ok .incomplete
-        else
-          let mlenR : M Nat :=
-            if bufs[0].size ≥ STUN_MESSAGE_LENGTH_POS + STUN_MESSAGE_LENGTH_LEN then
-              -- fast path
-              (getw bufs[0] STUN_MESSAGE_LENGTH_POS).map (·.toNat)
-            else
-              -- slow path
-              let (i, skip) := skipBytes bufs 0 STUN_MESSAGE_LENGTH_POS
-              if hi : i < bufs.size then
-                if bufs[i].size - skip > 1 then
-                  (getw bufs[i] skip).map (·.toNat)
-                else
-                  let j := nextNonEmpty bufs (i + 1)
-                  match rd bufs[i] skip with
-                  | .error e => .error e
-                  | .ok hi8 =>
-                    if hj : j < bufs.size then
-                      match rd bufs[j] 0 with
-                      | .error e => .error e
-                      | .ok lo8 => .ok ((hi8.toNat <<< 8) ||| lo8.toNat)
-                    else .error .oob
-              else .error .oob
-          match mlenR with
-          | .error e => .error e
-          | .ok m =>
-            let mlen := m + STUN_MESSAGE_HEADER_LENGTH
-            if pad && paddingN mlen != 0 then .ok .invalid
-            else if total < mlen then .ok .incomplete
-            else .ok (.len mlen)
-    else .ok .invalid
+  | some s => validateFastHead (bufs.extract s bufs.size) total pad
 
 /-- the attribute walk of `stun_message_validate_buffer_length`: `true` iff the loop ends with
     `len == 0`, `false` iff it returns INVALID.  `off` is `msg - start`. -/
